@@ -625,9 +625,7 @@ def check_degenerate(spec, ctx):
     sp = dict(spec)
     sp["nodes"] = None
     sp["geo"] = None
-    ctx2_flags = set(ctx.flags)
     check_interp(sp, ctx)
-    ctx.flags |= ctx2_flags
     ctx.nontrivial = True
 
 
@@ -888,7 +886,8 @@ def check_hier(spec, ctx):
 def strat_hier(dim):
     @st.composite
     def strat(draw, tier):
-        hist = draw(gh.history(dims=(dim,), pmin=1, pmax=3 if dim < 3 else 2, n0max=3 if dim < 3 else 2,
+        thb = draw(st.sampled_from([True, False, True]))     # THB first: small Hypothesis runs favour early elements
+        hist = draw(gh.history(dims=(dim,), truncate=thb, pmin=1, pmax=3 if dim < 3 else 2, n0max=3 if dim < 3 else 2,
                                max_steps=3, max_levels={1: 4, 2: 3, 3: 2}[dim] + (1 if tier == "thorough" and dim < 3 else 0),
                                disparities=(None, 1, 2)))
         gk_ = draw(st.sampled_from(["none", "none", "affine", "bilinear"] if dim == 2 else ["none", "none", "affine"]))
@@ -909,22 +908,22 @@ def strat_hier(dim):
 SUBCHECKS = [
     Sub("degenerate_enum", check_degenerate, enum=enum_degenerate, quick=0, thorough=0, floor=20,
         rule="all spaces with axes (p in {0,1}) x (1 or 2 spans), dims 1..3 (3-D: half of them in quick)"),
-    Sub("interpolate", check_interp, strategy=lambda tier: strat_interp(tier), quick=480, thorough=3200, floor=50,
+    Sub("interpolate", check_interp, strategy=lambda tier: strat_interp(tier), quick=480, thorough=9600, floor=50,
         rule="approx.interpolate: dims 1-3, p 0-6, default/explicit Greville/custom unisolvent nodes, data in the "
              "space / outside / raw value arrays, scalar/vector/matrix valued, with and without geometry"),
-    Sub("project_tp", check_proj_tp, strategy=lambda tier: strat_proj_tp(tier), quick=400, thorough=2400, floor=50,
+    Sub("project_tp", check_proj_tp, strategy=lambda tier: strat_proj_tp(tier), quick=400, thorough=8000, floor=50,
         rule="approx.project_L2 + assemble.inner_products in the parameter domain"),
-    Sub("project_geo", check_proj_geo, strategy=lambda tier: strat_proj_geo(tier), quick=320, thorough=2000, floor=50,
+    Sub("project_geo", check_proj_geo, strategy=lambda tier: strat_proj_geo(tier), quick=320, thorough=6400, floor=50,
         rule="approx.project_L2 / inner_products with affine, bilinear, spline, NURBS and named geometries; "
              "physical data vs. pull-back"),
-    Sub("bspline_1d", check_bsp1d, strategy=lambda tier: strat_bsp1d(tier), quick=480, thorough=3200, floor=50,
+    Sub("bspline_1d", check_bsp1d, strategy=lambda tier: strat_bsp1d(tier), quick=480, thorough=9600, floor=50,
         rule="bspline.interpolate / load_vector / project_L2"),
-    Sub("hier_1d", check_hier, strategy=lambda tier: strat_hier(1)(tier), quick=60, thorough=320, floor=10, shards=2,
+    Sub("hier_1d", check_hier, strategy=lambda tier: strat_hier(1)(tier), quick=60, thorough=1000, floor=10, shards=2,
         setup=make_hier_setup(1), timeout_q=900, timeout_t=3000, rule="HB/THB spaces from refinement histories, dim 1"),
-    Sub("hier_2d", check_hier, strategy=lambda tier: strat_hier(2)(tier), quick=60, thorough=320, floor=10, shards=2,
+    Sub("hier_2d", check_hier, strategy=lambda tier: strat_hier(2)(tier), quick=60, thorough=1000, floor=10, shards=2,
         setup=make_hier_setup(2), timeout_q=900, timeout_t=3000,
         rule="HB/THB spaces from refinement histories, dim 2, identity/affine/bilinear geometry"),
-    Sub("hier_3d", check_hier, strategy=lambda tier: strat_hier(3)(tier), quick=0, thorough=64, floor=0, shards=2,
+    Sub("hier_3d", check_hier, strategy=lambda tier: strat_hier(3)(tier), quick=0, thorough=160, floor=0, shards=2,
         setup=make_hier_setup(3, tiers=("thorough",)), timeout_q=300, timeout_t=3000,
         rule="HB/THB spaces from refinement histories, dim 3 (thorough tier only), identity/affine geometry"),
 ]
